@@ -181,7 +181,11 @@ func (fr *frame) typeOfModifiesItem(callee *ssa.Function, item string) types.Typ
 			if pt, ok := unalias(bt).Underlying().(*types.Pointer); ok {
 				bt = pt.Elem()
 			}
-			obj, _, _ := types.LookupFieldOrMethod(bt, true, callee.Pkg.Pkg, x.Name)
+			lpkg := callee.Pkg.Pkg
+			if n, ok := unalias(bt).(*types.Named); ok && n.Obj().Pkg() != nil {
+				lpkg = n.Obj().Pkg() // unexported fields of a type from another package (spec access)
+			}
+			obj, _, _ := types.LookupFieldOrMethod(bt, true, lpkg, x.Name)
 			if v, ok := obj.(*types.Var); ok {
 				return v.Type()
 			}
